@@ -72,7 +72,8 @@ def extract_case(rng, sp):
         net.res_pipe[c] = float(SENTINEL)
     rex.extract_branch_results_with_internals(
         net, br, "pipe", [("p_from_bar", "p_from")], [("t_from_k", "temp_from")], [("p_to_bar", "p_to")],
-        [("t_to_k", "temp_to")], [("lambda", "lambda"), ("reynolds", "reynolds")], [("t_outlet_k", "t_outlet")], [],
+        [("t_to_k", "temp_to")], [("lambda", "lambda"), ("reynolds", "reynolds"), ("dp_friction_loss_bar", "dp_frict_loss")],
+        [("t_outlet_k", "t_outlet")], [],
         "pipe_nodes", mode)
     labels = [int(x) for x in net.pipe.index.values]
     secs = [int(x) for x in net.pipe.sections.values]
@@ -82,22 +83,25 @@ def extract_case(rng, sp):
     to_ext = npit[br["to_nodes"][f:t], inode.TABLE_IDX] != tn
     out = []
     # hydraulic pass (mask: hydraulics) and heat pass (mask: heat_transfer when the mode computes heat)
-    for (mask_name, cfrom, vfrom, cto, vto, cmean, vmean, clast, vlast) in (
-            ("hydraulics", "p_from_bar", "p_from", "p_to_bar", "p_to", "lambda", "lambda", None, None),
+    for (mask_name, cfrom, vfrom, cto, vto, cmean, vmean, csum, vsum, clast, vlast) in (
+            ("hydraulics", "p_from_bar", "p_from", "p_to_bar", "p_to", "lambda", "lambda", "dp_friction_loss_bar",
+             "dp_frict_loss", None, None),
             ("heat_transfer" if mode == "sequential" else "hydraulics", "t_from_k", "temp_from", "t_to_k", "temp_to",
-             None, None, "t_outlet_k", "t_outlet")):
+             None, None, None, None, "t_outlet_k", "t_outlet")):
         conn = L["branch_active_" + mask_name][f:t]
         old = [SENTINEL] * len(labels)
-        res = {c: cm.as_int_list(net.res_pipe[c].values, c) for c in (cfrom, cto, cmean, clast) if c}
+        res = {c: cm.as_int_list(net.res_pipe[c].values, c) for c in (cfrom, cto, cmean, csum, clast) if c}
         z = [0] * len(idx_pit)
         txt = ("{| ec_numba := %s; ec_labels := %s; ec_secs := %s; ec_idx_pit := %s; ec_conn := %s; ec_from_ext := %s; "
-               "ec_to_ext := %s; ec_switched := %s; ec_v_from := %s; ec_v_to := %s; ec_v_mean := %s; ec_v_last := %s; ec_old := %s; "
-               "ec_res_from := %s; ec_res_to := %s; ec_res_mean := %s; ec_res_last := %s |}"
+               "ec_to_ext := %s; ec_switched := %s; ec_v_from := %s; ec_v_to := %s; ec_v_mean := %s; ec_v_sum := %s; ec_v_last := %s; "
+               "ec_old := %s; ec_res_from := %s; ec_res_to := %s; ec_res_mean := %s; ec_res_sum := %s; ec_res_last := %s |}"
                % (cbool(use_numba), cm.zl(labels), natl(secs), cm.zl(idx_pit), cm.bl(conn), cm.bl(from_ext), cm.bl(to_ext), cm.bl(switched),
                   cm.zl(br[vfrom][f:t]), cm.zl(br[vto][f:t]),
-                  cm.zl(br[vmean][f:t]) if vmean else cm.zl(z), cm.zl(br[vlast][f:t]) if vlast else cm.zl(z),
+                  cm.zl(br[vmean][f:t]) if vmean else cm.zl(z), cm.zl(br[vsum][f:t]) if vsum else cm.zl(z),
+                  cm.zl(br[vlast][f:t]) if vlast else cm.zl(z),
                   cm.zl(old), cm.zl(res[cfrom]), cm.zl(res[cto]),
                   cm.zl(res[cmean]) if cmean else cm.zl(model_mean_of_zeros(labels, secs, conn)),
+                  cm.zl(res[csum]) if csum else cm.zl(model_mean_of_zeros(labels, secs, conn)),
                   cm.zl(res[clast]) if clast else cm.zl(oracle_outlet(secs, conn, switched, z, old))))
         # the property as a python oracle, used to classify a disagreement
         bad = None
@@ -111,6 +115,8 @@ def extract_case(rng, sp):
             bad = (clast, res[clast], oracle_outlet(secs, conn, switched, [int(x) for x in br[vlast][f:t]], old))
         elif cmean and res[cmean] != oracle_mean(secs, conn, [int(x) for x in br[vmean][f:t]], old):
             bad = (cmean, res[cmean], oracle_mean(secs, conn, [int(x) for x in br[vmean][f:t]], old))
+        elif csum and res[csum] != oracle_mean(secs, conn, [int(x) for x in br[vsum][f:t]], old, is_sum=True):
+            bad = (csum, res[csum], oracle_mean(secs, conn, [int(x) for x in br[vsum][f:t]], old, is_sum=True))
         out.append((txt, bad, {"labels": labels, "sections": secs, "connected": [bool(x) for x in conn], "mode": mode,
                                 "switched": [bool(x) for x in switched]}))
     return out
@@ -139,12 +145,13 @@ def oracle_outlet(secs, conn, switched, vals, old):
     return out
 
 
-def oracle_mean(secs, conn, vals, old):
+def oracle_mean(secs, conn, vals, old, is_sum=False):
+    """mean over the element's own sections; the friction loss (is_sum) is their sum"""
     out, p = [], 0
     for r, s in enumerate(secs):
         if any(conn[p:p + s]):
             tot = sum(vals[p:p + s])
-            out.append(tot // s if tot % s == 0 else None)
+            out.append(tot if is_sum else (tot // s if tot % s == 0 else None))
         else:
             out.append(old[r])
         p += s
